@@ -1057,6 +1057,7 @@ func (vc *VC) applyContract(fr *Frame, st *State, con *Contract, fn *ssa.Functio
 		}
 	}
 	pre := st.clone()
+	preMark := vc.q.Mark()
 	mkEnv := func(cur, old *State) *Env {
 		e := &Env{vc: vc, fr: nil, st: cur, old: old, names: map[string]Bound{}, nq: new(int), pkg: pkg, con: con}
 		for k, v := range names {
@@ -1081,6 +1082,13 @@ func (vc *VC) applyContract(fr *Frame, st *State, con *Contract, fn *ssa.Functio
 		}
 		vc.q.Assert(Implies(st.reach, g))
 	}
+	// the callee may allocate: bump the allocation counter first, so that values it writes (havocked
+	// below, with well-formedness "allocated") may point into its own allocations
+	{
+		na := vc.q.Fresh("alloc$call", SInt)
+		vc.q.Assert(Ge(na, st.alloc))
+		st.alloc = na
+	}
 	// frame
 	if con.Flags["pure"] == "" {
 		if !con.HasAssigns {
@@ -1091,11 +1099,6 @@ func (vc *VC) applyContract(fr *Frame, st *State, con *Contract, fn *ssa.Functio
 				vc.havocLvalue(envPre, st, a)
 			}
 		}
-	}
-	{
-		na := vc.q.Fresh("alloc$call", SInt)
-		vc.q.Assert(Ge(na, st.alloc))
-		st.alloc = na
 	}
 	// results
 	rs := vc.freshResults(fr, st, sig, "ret_"+con.Name)
@@ -1117,6 +1120,14 @@ func (vc *VC) applyContract(fr *Frame, st *State, con *Contract, fn *ssa.Functio
 	}
 	if con.Flags["trusted"] != "" || fn == nil || !vc.eng.isVerified(con) {
 		vc.assumed["assumed contract: "+con.Key()] = true
+	}
+	// vacuity guard: assuming the callee's contract must not make a reachable call site unreachable
+	if fr != nil {
+		vc.callCovers++
+		cov := &Obligation{Name: fmt.Sprintf("%s/cover/call/%s@%d", vc.eng.funcName(vc.fn), con.Name, vc.callCovers), Kind: "cover",
+			Func: vc.eng.funcName(vc.fn), Mark: vc.q.Mark(), Reach: st.reach, Goal: False, ExpectSat: true,
+			PreMark: preMark, PreReach: pre.reach, vc: vc, Clause: "assumed contract of " + con.Key()}
+		vc.obls = append(vc.obls, cov)
 	}
 	return rs
 }
@@ -1266,6 +1277,19 @@ func nestedStore(arr Term, idx []Term, v Term) Term {
 // specAddr computes the address and type denoted by an lvalue expression.
 func (vc *VC) specAddr(env *Env, e SExpr) (Term, types.Type) {
 	switch x := e.(type) {
+	case *SIdent:
+		// an address-taken local of the function under verification (an ssa.Alloc)
+		if env.fr != nil {
+			for _, b := range env.fr.fn.Blocks {
+				for _, ins := range b.Instrs {
+					if a, ok := ins.(*ssa.Alloc); ok && a.Comment == x.Name {
+						if t, ok := env.fr.vals[a]; ok {
+							return t, a.Type().Underlying().(*types.Pointer).Elem()
+						}
+					}
+				}
+			}
+		}
 	case *SUnary:
 		if x.Op == "*" {
 			v, vt := vc.specExpr(env, x.X)
